@@ -179,6 +179,8 @@ func initProperties() {
 				use("COUNTCMP", "no element read one past the header count", nil),
 				use("DEADCMP", "limit guards are not dead by type range", nil),
 				use("UNUSEDBOUND", "length / depth bounds handed to a walker are used", nil),
+				use("SENTINELPOS", "negative `none` positions never reach a slicing callee", nil),
+				use("NILGUARDAGREE", "optional collaborators are nil-tested at every call site", nil),
 				use("ERRASSERT", "no unchecked error type assertion can panic", nil),
 				use("PACKEDKIND", "packed payloads are walked by the element kind", nil),
 				use("NATIVEQUOTE", "string escaper retry contract", nil),
@@ -248,6 +250,7 @@ func initProperties() {
 				use("UNKNOWNSKIP", "disallow option honoured at every lookup", inPkgs("conv/j2p")),
 				use("POOLESCAPE", "result copied out of the pooled buffer", inPkgs("conv/j2p")),
 				use("POOLFIELD", "the protocol object behind the returned bytes is not recycled", inPkgs("conv/j2p")),
+				use("SENTINELPOS", "the `no open length` sentinel never reaches FinishSpeculativeLength", inPkgs("conv/j2p")),
 				use("POOLRESET", "pooled visitor state fully reset", inPkgs("conv/j2p")),
 			)},
 		{ID: "C10", Title: "Protobuf edits and DOM marshalling keep the message well-formed and exact",
@@ -322,6 +325,7 @@ func initProperties() {
 				use("SCOPEFOLLOW", "names resolved in the file they were found in", nil),
 				use("DROPERR", "parse errors propagate", inPkgs("thrift", "internal/util", "internal/caching")),
 				use("PARAMMAPWRITE", "parse entry points do not store into the caller's includes map", inPkgs("thrift")),
+				use("INDEXLOWER", "lookups by id reject negative ids instead of indexing with them", inPkgs("thrift", "internal/util")),
 			)},
 		{ID: "C15", Title: "Protobuf descriptors mirror the schema",
 			Decides: "the compiling cache is keyed injectively (CACHEKEY: message types sharing a simple name get distinct descriptors), kind/wire/packedness tables match the spec (KINDTABLE), name maps are built (BUILDPAIR).",
@@ -331,6 +335,7 @@ func initProperties() {
 				use("KINDTABLE", "tables = spec", nil),
 				use("BUILDPAIR", "maps built", inPkgs("proto", "internal/util")),
 				use("PARAMMAPWRITE", "parse entry points do not store into the caller's includes map", inPkgs("proto")),
+				use("INDEXLOWER", "lookups by number reject negative numbers instead of indexing with them", inPkgs("proto", "internal/util")),
 			)},
 		{ID: "C16", Title: "Requiredness, defaults and unknown-field options behave as documented", QuickP: true,
 			Decides: "each write/disallow option reaches its own flag bit with the documented polarity (FLAGSYNC), options reach the matching parameter of HandleRequires/CheckRequires/EncodeText/ReadAnyWithDesc (ARGSWAP), an unknown member is an error exactly when disallowed and is otherwise skipped (NEGPOLARITY, UNKNOWNSKIP), unset fields are written under the same key as present ones (KEYSRC), the descriptor's requires bitmap is only copied, never written (DESCIMMUT).",
@@ -353,6 +358,7 @@ func initProperties() {
 			Uses: uses(
 				use("ANNOTABLE", "annotation -> source", nil),
 				use("BMSET", "http-mapped fields are recorded in the requires bitmap", inPkgs("conv/j2t", "conv/t2j")),
+				use("NILGUARDAGREE", "an absent ResponseSetter/RequestGetter never reaches the mapping code", nil),
 				use("FIRSTWINS", "first source wins", nil),
 				use("FLAGSYNC", "HTTPConv enables mapping", nil),
 				use("ARGSWAP", "options in order", inPkgs("conv/j2t", "conv/t2j", "thrift/annotation")),
